@@ -105,6 +105,10 @@ def build(draw, params=None, pt2=None, distributed_config=None):
         if g.get("beta3", -1.0) == -1.0:
             d.pop("beta3")                       # leave unset: must inherit the RESOLVED optimizer-level value
             # (the reference then uses group 0's resolved beta3, as the property states)
+        g0 = gs[0]
+        start0 = g0["start"] if g0["start"] != -1 else g0["freq"]
+        if g["start"] == start0:
+            d.pop("start_preconditioning_step")  # unset start step: inherits the resolved optimizer-level value (same number)
         pgs.append(d)
     opt = DistributedShampoo(pgs, preconditioner_dtype=DT[draw["pdtype"]], shampoo_pt2_compile_config=pt2,
                              distributed_config=distributed_config, **kw0)
@@ -140,32 +144,28 @@ def abstract_group(opt, gi, g):
 
 
 def ref_blocks(opt, gi, g):
-    """Block metadata for the numeric reference: slices of the merged view, preconditioned dims."""
+    """Block metadata for the numeric reference: slices of the merged view, preconditioned dims.  Derived from the block VIEWS
+    themselves (storage offset and strides relative to the parameter), not from private attributes of the distributor."""
     lay = block_layout(opt, gi)
     plist = opt.param_groups[gi]["params"]
     ignored = set(g.get("ignored", []))
     out = []
     for pidx, _, blk in lay:
         p = plist[pidx]
-        esz = p.element_size()
-        # recover the slice of the merged view from strides / storage offset
-        from distributed_shampoo.shampoo_types import DISTRIBUTOR
-        dist = opt._per_group_state_lists[gi][DISTRIBUTOR]
-        merged = tuple(dist._global_merged_dims_list[pidx])
-        off = blk.storage_offset() - p.storage_offset()
-        strides = []
-        acc = 1
-        for d in reversed(merged):
-            strides.insert(0, acc)
-            acc *= d
-        starts = []
-        for st_ in strides:
-            starts.append(off // st_)
-            off = off % st_
-        if len(merged) == 0:
-            slices = ()
+        numel = p.numel()
+        strides = list(blk.stride())
+        if blk.dim() == 0:
+            merged, slices = (), ()
         else:
-            slices = tuple((s, l) for s, l in zip(starts, blk.shape))
+            # the merged view is contiguous: its dims follow from consecutive stride ratios
+            merged = [numel // strides[0] if strides[0] else 1] + [strides[i - 1] // strides[i] for i in range(1, len(strides))]
+            off = blk.storage_offset() - p.storage_offset()
+            starts = []
+            for st_ in strides:
+                starts.append(off // st_)
+                off = off % st_
+            merged = tuple(int(x) for x in merged)
+            slices = tuple((int(s), int(l)) for s, l in zip(starts, blk.shape))
         out.append({"param": pidx, "merged": merged, "slices": slices,
                     "pdims": [d for d in range(blk.dim()) if d not in ignored]})
     return out
